@@ -221,12 +221,75 @@ package tengo
 //@   props C06 C02
 //@   mode panics-allowed bounds
 //@   private v
+//@   requires rep: v.curFrame == &v.frames[v.framesIndex-1]
+//@   requires frames: 1 <= v.framesIndex && v.framesIndex <= MaxFrames
 //@   assigns *
+//@   loop 0 invariant rep{C02,C06,C16}: v.curFrame == &v.frames[v.framesIndex-1]
+//@   loop 0 invariant frames{C06}: 1 <= v.framesIndex && v.framesIndex <= MaxFrames
 //@   loop 0 let op = v.curInsts[v.ip+1]
+//@   loop 0 let o8 = int(v.curInsts[v.ip+2])
+//@   loop 0 let o16 = int(v.curInsts[v.ip+3]) | int(v.curInsts[v.ip+2])<<8
+//@   loop 0 let bp = v.curFrame.basePointer
+//@   loop 0 let sp0 = v.sp
+//@   loop 0 let top = v.stack[v.sp-1]
+//@   loop 0 let slot = v.stack[v.curFrame.basePointer + int(v.curInsts[v.ip+2])]
+//@   loop 0 let frees = v.curFrame.freeVars
+// --- C06: allocation budget
 //@   loop 0 step budget{C06}: v.allocs == it0(v.allocs) || (v.allocs == it0(v.allocs) - 1 && (continued ==> v.allocs != 0))
 //@   loop 0 step tracked{C06}: continued && spec.alloc_always(op) ==> v.allocs == it0(v.allocs) - 1
 //@   loop 0 step untracked{C06}: spec.alloc_never(op) ==> v.allocs == it0(v.allocs)
 //@   loop 0 step limit{C06}: exited && v.allocs == 0 && it0(v.allocs) != 0 ==> v.err == ErrObjectAllocLimit
+// --- C02: the VM decodes exactly the operand bytes the table declares, and moves the stack as specified
 //@   loop 0 step decode{C02}: continued && spec.straight(op) ==> v.ip == it0(v.ip) + 1 + int(spec.sumw(op))
 //@   loop 0 step delta{C02}: continued && spec.delta_fixed(op) ==> v.sp == it0(v.sp) + int(spec.delta(op))
 //@   loop 0 step opcode{C02}: continued ==> spec.validop(op)
+// --- C11: the three variable families are one abstract cell
+//@   loop 0 step getg{C11}: continued && op == parser.OpGetGlobal ==> v.stack[sp0] == it0(v.globals[o16])
+//@   loop 0 step setg{C11}: continued && op == parser.OpSetGlobal ==> v.globals[o16] == top
+//@   loop 0 step getl{C11}: continued && op == parser.OpGetLocal
+//@              ==> v.stack[sp0] == ite(is(slot, *ObjectPtr), it0(*slot.(*ObjectPtr).Value), slot)
+//@   loop 0 step setl_boxed{C11}: continued && op == parser.OpSetLocal && is(slot, *ObjectPtr) && slot.(*ObjectPtr).Value != &v.stack[bp+o8]
+//@              ==> *slot.(*ObjectPtr).Value == top && v.stack[bp+o8] == slot
+//@   loop 0 step setl_plain{C11}: continued && op == parser.OpSetLocal && !is(slot, *ObjectPtr) ==> v.stack[bp+o8] == top
+//@   loop 0 step defl{C11}: continued && op == parser.OpDefineLocal ==> v.stack[bp+o8] == top
+//@   loop 0 step getf{C11}: continued && op == parser.OpGetFree ==> v.stack[sp0] == it0(*frees[o8].Value)
+//@   loop 0 step setf{C11}: continued && op == parser.OpSetFree ==> *frees[o8].Value == top
+//@   loop 0 step getfp{C11}: continued && op == parser.OpGetFreePtr ==> v.stack[sp0] == frees[o8]
+//@   loop 0 step getlp_boxed{C11}: continued && op == parser.OpGetLocalPtr && is(slot, *ObjectPtr)
+//@              ==> v.stack[sp0] == slot && v.stack[bp+o8] == slot
+//@   loop 0 step getlp_plain{C11}: continued && op == parser.OpGetLocalPtr && !is(slot, *ObjectPtr)
+//@              ==> is(v.stack[sp0], *ObjectPtr) && freshit(v.stack[sp0]) && v.stack[bp+o8] == v.stack[sp0]
+//@                  && *v.stack[sp0].(*ObjectPtr).Value == slot
+// --- C14: sentinel and host errors stay recognisable (identity preserved at every error exit)
+//@   loop 0 step err_binop{C14}: exited && op == parser.OpBinaryOp && callresult(BinaryOp, 1) != nil && callresult(BinaryOp, 1) != ErrInvalidOperator
+//@              ==> v.err == callresult(BinaryOp, 1)
+//@   loop 0 step err_index{C14}: exited && op == parser.OpIndex && callresult(IndexGet, 1) != nil
+//@                  && callresult(IndexGet, 1) != ErrNotIndexable && callresult(IndexGet, 1) != ErrInvalidIndexType
+//@              ==> v.err == callresult(IndexGet, 1)
+//@   loop 0 step err_call{C14}: exited && op == parser.OpCall && called(Call) && callresult(Call, 1) != nil
+//@                  && callresult(Call, 1) != ErrWrongNumArguments && !is(callresult(Call, 1), ErrInvalidArgumentType)
+//@              ==> v.err == callresult(Call, 1)
+//@   loop 0 step err_alloc{C14}: exited && v.err == ErrObjectAllocLimit ==> v.allocs == 0
+//@   loop 0 step err_overflow{C14,C06}: exited && v.err == ErrStackOverflow ==> op == parser.OpCall && it0(v.framesIndex) >= MaxFrames
+// --- C06: frame limit
+//@   loop 0 step frames{C06}: continued ==> v.framesIndex == it0(v.framesIndex)
+//@                  || (op == parser.OpCall && v.framesIndex == it0(v.framesIndex) + 1 && it0(v.framesIndex) < MaxFrames)
+//@                  || (op == parser.OpReturn && v.framesIndex == it0(v.framesIndex) - 1)
+// --- C16: a self call directly followed by RET (or POP; RET) reuses the frame
+//@   loop 0 let nextop = v.curInsts[v.ip+4]
+//@   loop 0 let nextop2 = v.curInsts[v.ip+5]
+//@   loop 0 step tail_detect{C16}: continued && op == parser.OpCall && v.framesIndex == it0(v.framesIndex) && v.ip == -1
+//@              ==> nextop == parser.OpReturn || (nextop == parser.OpPop && nextop2 == parser.OpReturn)
+//@   loop 0 step tail_frame{C16}: continued && op == parser.OpCall && v.framesIndex == it0(v.framesIndex) && v.ip == -1
+//@              ==> v.curFrame == it0(v.curFrame) && v.curInsts == it0(v.curInsts)
+//@   loop 0 step call_frame{C16,C02}: continued && op == parser.OpCall && v.framesIndex == it0(v.framesIndex) + 1
+//@              ==> v.ip == -1 && v.curFrame == &v.frames[it0(v.framesIndex)] && it0(v.curFrame).ip == it0(v.ip) + 3
+//@                  && v.curInsts == v.curFrame.fn.Instructions && v.sp == v.curFrame.basePointer + v.curFrame.fn.NumLocals
+// --- C09: slicing an immutable array must not hand out its storage
+//@   loop 0 let sliced = v.stack[v.sp-3]
+//@   loop 0 step slice_immutable{C09}: continued && op == parser.OpSliceIndex && is(sliced, *ImmutableArray)
+//@              ==> is(v.stack[sp0-3], *Array) && (len(v.stack[sp0-3].(*Array).Value) == 0 || freshit(v.stack[sp0-3].(*Array).Value))
+
+//@ func interface Object.Call
+//@   props C08
+//@   assigns *
